@@ -317,6 +317,8 @@ func oraclePoliciesFor(prop string, rng *rand.Rand, n int, unsafeOK bool) []*Pol
 			out = append(out, ps)
 		}
 		return out
+	case "C10":
+		return c10Policies(rng, n)
 	case "C11":
 		var out []*PolicySpec
 		for _, c := range linkGrid(rng, false) {
@@ -333,6 +335,8 @@ func docFor(prop string, g *docGen, rng *rand.Rand, ps *PolicySpec) string {
 	switch prop {
 	case "C08", "C09":
 		return g.tree(0)
+	case "C10":
+		return c10Doc(rng)
 	case "C05":
 		d, _ := g.document()
 		return d + pick(rng, []string{"", "<script>MARKS</script>", "<SCRIPT x=y>MARKS</SCRIPT>", "<style>MARKS</style>", "<svg><script>MARKS</script></svg>", "<script/>MARKS</script>", "<style/>MARKS</style>", "<script>MARKS", "<math><style>MARKS</style>", "<scrİpt>x</script>"})
@@ -397,6 +401,8 @@ func docFor(prop string, g *docGen, rng *rand.Rand, ps *PolicySpec) string {
 // oracleFor returns the check for one property; the check returns whether the case was non-trivial
 func oracleFor(prop string, fail func(oracleCase, string, map[string]any), sum *summary) func(oracleCase, *specView) bool {
 	switch prop {
+	case "C10":
+		return oracleC10(fail)
 	case "C01":
 		return func(c oracleCase, v *specView) bool {
 			if v.unsafe {
